@@ -64,6 +64,9 @@ type inlSite struct {
 	siblings   *[]*inlSite          // all sites of the enclosing function (to keep consumed statements free of other sites)
 	loopLabels map[token.Pos]string // labels given to enclosing loops by earlier rewrites of this file
 	preEdits   *[]inlEdit           // extra insertions (loop labels) requested by the rewrite
+	// imports added to the calling file by earlier rewrites (path -> name)
+	addedImports map[string]string
+	exprSite     bool // the call itself is replaced by the helper's single return expression
 }
 
 type inlEdit struct {
@@ -131,38 +134,46 @@ func inlineNewHelpers(pkgs []*packages.Package, src func(string) []byte) (map[st
 	overlay := map[string][]byte{}
 	var done, notes []string
 	counter := 0
-	for _, p := range pkgs {
-		if !smPkgs[p.PkgPath] || p.TypesInfo == nil {
+	// new functions of all state-machine packages (a new exported function may be called from another package of the
+	// module: code moved between layers)
+	helpers := map[types.Object]*inlHelper{}
+	for _, hp := range pkgs {
+		if !smPkgs[hp.PkgPath] || hp.TypesInfo == nil {
 			continue
 		}
-		info := p.TypesInfo
-		helpers := map[types.Object]*inlHelper{}
-		for i, f := range p.Syntax {
-			if i >= len(p.CompiledGoFiles) {
+		for i, f := range hp.Syntax {
+			if i >= len(hp.CompiledGoFiles) {
 				continue
 			}
-			fname := p.CompiledGoFiles[i]
+			fname := hp.CompiledGoFiles[i]
 			if strings.HasSuffix(fname, ".pb.go") || strings.HasSuffix(fname, ".pb.gw.go") {
 				continue
 			}
 			for _, d := range f.Decls {
 				fd, ok := d.(*ast.FuncDecl)
-				if !ok || ast.IsExported(fd.Name.Name) || fd.Name.Name == "init" || fd.Name.Name == "_" {
+				if !ok || fd.Name.Name == "init" || fd.Name.Name == "_" {
 					continue
 				}
-				key := declKey(p.PkgPath, fd)
+				key := declKey(hp.PkgPath, fd)
 				if baselineFuncs[key] || funcRenames[key] != "" {
 					continue
 				}
-				h := &inlHelper{key: key, decl: fd, file: f, filename: fname, obj: info.Defs[fd.Name], pkg: p, bad: inlinableDecl(fd)}
+				h := &inlHelper{key: key, decl: fd, file: f, filename: fname, obj: hp.TypesInfo.Defs[fd.Name], pkg: hp, bad: inlinableDecl(fd)}
 				if h.obj != nil {
 					helpers[h.obj] = h
 				}
 			}
 		}
-		if len(helpers) == 0 {
+	}
+	if len(helpers) == 0 {
+		return overlay, done, notes
+	}
+	noted := map[*inlHelper]bool{}
+	for _, p := range pkgs {
+		if !smPkgs[p.PkgPath] || p.TypesInfo == nil {
 			continue
 		}
+		info := p.TypesInfo
 		// call sites
 		var sites []*inlSite
 		for i, f := range p.Syntax {
@@ -214,7 +225,8 @@ func inlineNewHelpers(pkgs []*packages.Package, src func(string) []byte) (map[st
 			used[s.h] = true
 		}
 		for _, h := range helpers {
-			if h.bad != "" {
+			if h.bad != "" && !noted[h] {
+				noted[h] = true
 				notes = append(notes, h.key+": not inlined ("+h.bad+")")
 			}
 		}
@@ -224,7 +236,13 @@ func inlineNewHelpers(pkgs []*packages.Package, src func(string) []byte) (map[st
 				continue
 			}
 			// all replacements are generated from the original text, then applied bottom-up
-			sort.Slice(ss, func(i, j int) bool { return ss[i].stmt.Pos() > ss[j].stmt.Pos() })
+			sitePos := func(x *inlSite) token.Pos {
+				if x.exprSite {
+					return x.call.Pos()
+				}
+				return x.stmt.Pos()
+			}
+			sort.Slice(ss, func(i, j int) bool { return sitePos(ss[i]) > sitePos(ss[j]) })
 			okFile := true
 			type fileEdit struct {
 				a, b int
@@ -232,16 +250,27 @@ func inlineNewHelpers(pkgs []*packages.Package, src func(string) []byte) (map[st
 			}
 			var edits []fileEdit
 			loopLabels := map[token.Pos]string{}
+			addedImports := map[string]string{}
 			var pre []inlEdit
 			for _, s := range ss {
 				counter++
-				s.loopLabels, s.preEdits = loopLabels, &pre
-				repl, err := genInline(p, s, counter, src)
+				s.loopLabels, s.preEdits, s.addedImports = loopLabels, &pre, addedImports
+				var repl []byte
+				var err error
+				if s.exprSite {
+					repl, err = genExprInline(p, s, src)
+				} else {
+					repl, err = genInline(p, s, counter, src)
+				}
 				if err != nil {
 					notes = append(notes, s.h.key+": not inlined ("+err.Error()+")")
 					s.h.bad = err.Error()
 					okFile = false
 					break
+				}
+				if s.exprSite {
+					edits = append(edits, fileEdit{p.Fset.Position(s.call.Pos()).Offset, p.Fset.Position(s.call.End()).Offset, repl})
+					continue
 				}
 				a, b := p.Fset.Position(s.stmt.Pos()).Offset, p.Fset.Position(s.stmt.End()).Offset
 				if s.replEnd.IsValid() {
@@ -328,6 +357,27 @@ func findSites(info *types.Info, helpers map[types.Object]*inlHelper, f *ast.Fil
 			if len(x.Results) == 1 {
 				return callOf(x.Results[0])
 			}
+			// `return &Resp{}, h(..)`: one helper call among results that are otherwise free of calls and effects (the
+			// call is then evaluated before them, which cannot be observed)
+			var hit *ast.CallExpr
+			var hh *inlHelper
+			for _, r := range x.Results {
+				if c, h := callOf(r); c != nil {
+					if hit != nil {
+						return nil, nil
+					}
+					hit, hh = c, h
+					continue
+				}
+				if !pureExpr(r) {
+					return nil, nil
+				}
+			}
+			if hit != nil {
+				if sg, ok := hh.obj.Type().(*types.Signature); ok && sg.Results().Len() == 1 {
+					return hit, hh
+				}
+			}
 		}
 		return nil, nil
 	}
@@ -364,7 +414,12 @@ func findSites(info *types.Info, helpers map[types.Object]*inlHelper, f *ast.Fil
 	ast.Inspect(fd.Body, func(n ast.Node) bool {
 		if c, ok := n.(*ast.CallExpr); ok {
 			if cc, h := callOf(c); cc != nil && !supported[c] && h.bad == "" {
-				h.bad = "called inside an expression or an unsupported statement"
+				if exprHelperBody(h.decl) != nil {
+					supported[c] = true
+					*sites = append(*sites, &inlSite{h: h, call: c, file: f, filename: fname, fn: fd, exprSite: true})
+				} else {
+					h.bad = "called inside an expression or an unsupported statement"
+				}
 			}
 			return true
 		}
@@ -393,9 +448,31 @@ func findSites(info *types.Info, helpers map[types.Object]*inlHelper, f *ast.Fil
 }
 
 func genInline(p *packages.Package, s *inlSite, n int, src func(string) []byte) ([]byte, error) {
-	info := p.TypesInfo
+	cinfo := p.TypesInfo
 	fset := p.Fset
 	h := s.h
+	hinfo := cinfo
+	if h.pkg != nil && h.pkg.TypesInfo != nil {
+		hinfo = h.pkg.TypesInfo
+	}
+	hscope := p.Types.Scope()
+	if h.pkg != nil && h.pkg.Types != nil {
+		hscope = h.pkg.Types.Scope()
+	}
+	crossPkg := h.pkg != nil && h.pkg != p
+	// an identifier belongs to the syntax of exactly one package: look it up in both
+	usesOf := func(id *ast.Ident) types.Object {
+		if o := cinfo.Uses[id]; o != nil {
+			return o
+		}
+		return hinfo.Uses[id]
+	}
+	defsOf := func(id *ast.Ident) types.Object {
+		if o := cinfo.Defs[id]; o != nil {
+			return o
+		}
+		return hinfo.Defs[id]
+	}
 	sig, ok := h.obj.Type().(*types.Signature)
 	if !ok {
 		return nil, fmt.Errorf("no signature")
@@ -437,7 +514,7 @@ func genInline(p *packages.Package, s *inlSite, n int, src func(string) []byte) 
 	locals := map[string]bool{}
 	ast.Inspect(s.fn, func(nd ast.Node) bool {
 		if id, ok := nd.(*ast.Ident); ok {
-			if o := info.Defs[id]; o != nil && o.Parent() != p.Types.Scope() {
+			if o := defsOf(id); o != nil && o.Parent() != p.Types.Scope() {
 				locals[id.Name] = true
 			}
 		}
@@ -446,10 +523,10 @@ func genInline(p *packages.Package, s *inlSite, n int, src func(string) []byte) 
 	conflict := ""
 	ast.Inspect(h.decl.Body, func(nd ast.Node) bool {
 		if id, ok := nd.(*ast.Ident); ok {
-			if o := info.Uses[id]; o != nil {
+			if o := usesOf(id); o != nil {
 				par := o.Parent()
-				if _, isPkg := o.(*types.PkgName); isPkg || par == p.Types.Scope() || par == types.Universe {
-					if locals[id.Name] {
+				if _, isPkg := o.(*types.PkgName); isPkg || par == hscope || par == types.Universe {
+					if locals[id.Name] && !(crossPkg && par == hscope) {
 						conflict = id.Name
 					}
 				}
@@ -527,7 +604,7 @@ func genInline(p *packages.Package, s *inlSite, n int, src func(string) []byte) 
 			return nil
 		}
 		if id, ok := be.X.(*ast.Ident); ok {
-			if nl, ok := be.Y.(*ast.Ident); ok && nl.Name == "nil" && info.Uses[nl] == types.Universe.Lookup("nil") {
+			if nl, ok := be.Y.(*ast.Ident); ok && nl.Name == "nil" && usesOf(nl) == types.Universe.Lookup("nil") {
 				return id
 			}
 		}
@@ -543,23 +620,23 @@ func genInline(p *packages.Package, s *inlSite, n int, src func(string) []byte) 
 		}
 		switch x := e.(type) {
 		case *ast.Ident:
-			if x.Name == "nil" && info.Uses[x] == types.Universe.Lookup("nil") {
+			if x.Name == "nil" && usesOf(x) == types.Universe.Lookup("nil") {
 				return "nil"
 			}
-			if v, ok := info.Uses[x].(*types.Var); ok && v.Parent() == v.Pkg().Scope() && strings.HasPrefix(v.Name(), "Err") {
+			if v, ok := usesOf(x).(*types.Var); ok && v.Parent() == v.Pkg().Scope() && strings.HasPrefix(v.Name(), "Err") {
 				return "nonnil"
 			}
 		case *ast.SelectorExpr:
-			if v, ok := info.Uses[x.Sel].(*types.Var); ok && v.Pkg() != nil && v.Parent() == v.Pkg().Scope() && strings.HasPrefix(v.Name(), "Err") {
+			if v, ok := usesOf(x.Sel).(*types.Var); ok && v.Pkg() != nil && v.Parent() == v.Pkg().Scope() && strings.HasPrefix(v.Name(), "Err") {
 				return "nonnil"
 			}
 		case *ast.CallExpr:
 			var fo types.Object
 			switch f := ast.Unparen(x.Fun).(type) {
 			case *ast.Ident:
-				fo = info.Uses[f]
+				fo = usesOf(f)
 			case *ast.SelectorExpr:
-				fo = info.Uses[f.Sel]
+				fo = usesOf(f.Sel)
 			}
 			if fn, ok := fo.(*types.Func); ok && fn.Pkg() != nil {
 				switch fn.Pkg().Path() + "." + fn.Name() {
@@ -685,7 +762,7 @@ func genInline(p *packages.Package, s *inlSite, n int, src func(string) []byte) 
 				if len(rt.Results) == 1 {
 					if be, ok := ast.Unparen(rt.Results[0]).(*ast.BinaryExpr); ok && (be.Op == token.NEQ || be.Op == token.EQL) {
 						if id, ok := be.X.(*ast.Ident); ok {
-							if nl, ok := be.Y.(*ast.Ident); ok && nl.Name == "nil" && info.Uses[nl] == types.Universe.Lookup("nil") {
+							if nl, ok := be.Y.(*ast.Ident); ok && nl.Name == "nil" && usesOf(nl) == types.Universe.Lookup("nil") {
 								for i, nm := range lhsNames {
 									if nm == id.Name && nm != "_" {
 										ti, isNeq = i, be.Op == token.NEQ
@@ -729,7 +806,7 @@ func genInline(p *packages.Package, s *inlSite, n int, src func(string) []byte) 
 				if id.Name != "_" {
 					lhsIdx[id.Name] = i
 				}
-				if st.Tok == token.DEFINE && id.Name != "_" && info.Defs[id] != nil {
+				if st.Tok == token.DEFINE && id.Name != "_" && defsOf(id) != nil {
 					fmt.Fprintf(&decl, "var %s %s\n_ = %s\n", id.Name, ts(sig.Results().At(i).Type()), id.Name)
 				}
 			}
@@ -789,7 +866,7 @@ func genInline(p *packages.Package, s *inlSite, n int, src func(string) []byte) 
 					switch c := cond.(type) {
 					case *ast.BinaryExpr:
 						if id, ok := c.X.(*ast.Ident); ok && (c.Op == token.NEQ || c.Op == token.EQL) {
-							if nl, ok := c.Y.(*ast.Ident); ok && nl.Name == "nil" && info.Uses[nl] == types.Universe.Lookup("nil") {
+							if nl, ok := c.Y.(*ast.Ident); ok && nl.Name == "nil" && usesOf(nl) == types.Universe.Lookup("nil") {
 								if i, ok := lhsIdx[id.Name]; ok {
 									f.idx = i
 									f.kind = map[token.Token]string{token.NEQ: "nonnil", token.EQL: "nil"}[c.Op]
@@ -851,7 +928,7 @@ func genInline(p *packages.Package, s *inlSite, n int, src func(string) []byte) 
 					}
 					if s.siblings != nil {
 						for _, o := range *s.siblings {
-							if o != s && o.filename == s.filename && o.stmt.Pos() >= iff.Pos() && o.stmt.End() <= iff.End() {
+							if o != s && o.filename == s.filename && o.call.Pos() >= iff.Pos() && o.call.End() <= iff.End() {
 								okBody = false
 							}
 						}
@@ -901,7 +978,7 @@ func genInline(p *packages.Package, s *inlSite, n int, src func(string) []byte) 
 				s.replEnd = fols[len(fols)-1].iff.End()
 				boolLit := func(e ast.Expr) string {
 					if id, ok := ast.Unparen(e).(*ast.Ident); ok && (id.Name == "true" || id.Name == "false") {
-						if _, isConst := info.Uses[id].(*types.Const); isConst && info.Uses[id].Parent() == types.Universe {
+						if _, isConst := usesOf(id).(*types.Const); isConst && usesOf(id).Parent() == types.Universe {
 							return id.Name
 						}
 					}
@@ -943,7 +1020,7 @@ func genInline(p *packages.Package, s *inlSite, n int, src func(string) []byte) 
 	rename := map[types.Object]string{}
 	ast.Inspect(h.decl, func(nd ast.Node) bool {
 		if id, ok := nd.(*ast.Ident); ok {
-			if o := info.Defs[id]; o != nil && handlerNames[id.Name] && o != h.obj {
+			if o := defsOf(id); o != nil && handlerNames[id.Name] && o != h.obj {
 				rename[o] = pre + "_" + id.Name
 			}
 		}
@@ -954,11 +1031,53 @@ func genInline(p *packages.Package, s *inlSite, n int, src func(string) []byte) 
 		text string
 	}
 	var idReps []rep
+	var crossErr error
 	ast.Inspect(h.decl.Body, func(nd ast.Node) bool {
 		if id, ok := nd.(*ast.Ident); ok {
-			o := info.Defs[id]
+			o := defsOf(id)
 			if o == nil {
-				o = info.Uses[id]
+				o = usesOf(id)
+			}
+			if pn, isPkg := o.(*types.PkgName); isPkg && h.filename != s.filename {
+				// a package referred to under the helper file's import name: use the calling file's name for it, or
+				// import it there under a fresh name
+				path := pn.Imported().Path()
+				want, okImp := imports[path]
+				if !okImp {
+					want = s.addedImports[path]
+					if want == "" {
+						want = fmt.Sprintf("inlimp%d", len(s.addedImports)+1)
+						s.addedImports[path] = want
+						*s.preEdits = append(*s.preEdits, inlEdit{s.file.Name.End(), "\nimport " + want + " \"" + path + "\"\n"})
+					}
+				}
+				if want != id.Name {
+					idReps = append(idReps, rep{off(id.Pos()), off(id.End()), want})
+				}
+				return true
+			}
+			if crossPkg && o != nil && o.Parent() == hscope && defsOf(id) == nil {
+				// a package-level name of the helper's package, used from another package: it must be exported and is
+				// written with the calling file's name for that package
+				if !o.Exported() {
+					crossErr = fmt.Errorf("the helper uses the unexported %s of its package", o.Name())
+					return true
+				}
+				path := h.pkg.PkgPath
+				want, okImp := imports[path]
+				if !okImp {
+					want = s.addedImports[path]
+					if want == "" {
+						want = fmt.Sprintf("inlimp%d", len(s.addedImports)+1)
+						s.addedImports[path] = want
+						*s.preEdits = append(*s.preEdits, inlEdit{s.file.Name.End(), "\nimport " + want + " \"" + path + "\"\n"})
+					}
+				}
+				if locals[want] {
+					crossErr = fmt.Errorf("package name %q is shadowed in the calling function", want)
+				}
+				idReps = append(idReps, rep{off(id.Pos()), off(id.End()), want + "." + id.Name})
+				return true
 			}
 			if nn, ok := rename[o]; ok && o != nil {
 				idReps = append(idReps, rep{off(id.Pos()), off(id.End()), nn})
@@ -966,6 +1085,9 @@ func genInline(p *packages.Package, s *inlSite, n int, src func(string) []byte) 
 		}
 		return true
 	})
+	if crossErr != nil {
+		return nil, crossErr
+	}
 	sort.Slice(idReps, func(i, j int) bool { return idReps[i].a > idReps[j].a })
 	// hText: helper source text of [a, e) with the renames applied
 	hText := func(a, e token.Pos) string {
@@ -1003,7 +1125,24 @@ func genInline(p *packages.Package, s *inlSite, n int, src func(string) []byte) 
 		}
 		rt := sig.Recv().Type()
 		expr := textOf(csrc, sel.X.Pos(), sel.X.End())
-		et := info.TypeOf(sel.X)
+		et := cinfo.TypeOf(sel.X)
+		// a method promoted through embedded fields (`m.helper()` with m a MsgServer that embeds Keeper): spell the
+		// path of embedded fields out
+		if selection := cinfo.Selections[sel]; selection != nil && len(selection.Index()) > 1 {
+			cur := et
+			for _, fi := range selection.Index()[:len(selection.Index())-1] {
+				if pt, ok := cur.Underlying().(*types.Pointer); ok {
+					cur = pt.Elem()
+				}
+				st, ok := cur.Underlying().(*types.Struct)
+				if !ok || fi >= st.NumFields() {
+					return nil, fmt.Errorf("embedded receiver path not resolved")
+				}
+				expr = "(" + expr + ")." + st.Field(fi).Name()
+				cur = st.Field(fi).Type()
+			}
+			et = cur
+		}
 		_, rp := rt.(*types.Pointer)
 		_, ep := et.(*types.Pointer)
 		switch {
@@ -1015,7 +1154,7 @@ func genInline(p *packages.Package, s *inlSite, n int, src func(string) []byte) 
 		name := "_"
 		if len(h.decl.Recv.List) == 1 && len(h.decl.Recv.List[0].Names) == 1 {
 			rid := h.decl.Recv.List[0].Names[0]
-			name = renamed(rid.Name, info.Defs[rid])
+			name = renamed(rid.Name, defsOf(rid))
 		}
 		tmp := pre + "A0"
 		fmt.Fprintf(&b, "var %s %s = %s\n_ = %s\n", tmp, ts(rt), expr, tmp)
@@ -1028,7 +1167,7 @@ func genInline(p *packages.Package, s *inlSite, n int, src func(string) []byte) 
 				pnames = append(pnames, "_")
 			}
 			for _, nm := range f.Names {
-				pnames = append(pnames, renamed(nm.Name, info.Defs[nm]))
+				pnames = append(pnames, renamed(nm.Name, defsOf(nm)))
 			}
 		}
 	}
@@ -1057,7 +1196,7 @@ func genInline(p *packages.Package, s *inlSite, n int, src func(string) []byte) 
 	if h.decl.Type.Results != nil {
 		for _, f := range h.decl.Type.Results.List {
 			for _, nm := range f.Names {
-				named = append(named, renamed(nm.Name, info.Defs[nm]))
+				named = append(named, renamed(nm.Name, defsOf(nm)))
 			}
 		}
 	}
@@ -1083,7 +1222,7 @@ func genInline(p *packages.Package, s *inlSite, n int, src func(string) []byte) 
 		if !ok {
 			return false
 		}
-		obj := info.Uses[id]
+		obj := usesOf(id)
 		if obj == nil {
 			return false
 		}
@@ -1097,7 +1236,7 @@ func genInline(p *packages.Package, s *inlSite, n int, src func(string) []byte) 
 				continue
 			}
 			t := testedOf(iff.Cond)
-			if t == nil || info.Uses[t] != obj {
+			if t == nil || usesOf(t) != obj {
 				continue
 			}
 			assigned := false
@@ -1105,13 +1244,13 @@ func genInline(p *packages.Package, s *inlSite, n int, src func(string) []byte) 
 				switch y := nd.(type) {
 				case *ast.AssignStmt:
 					for _, l := range y.Lhs {
-						if li, ok := l.(*ast.Ident); ok && (info.Uses[li] == obj || info.Defs[li] == obj) {
+						if li, ok := l.(*ast.Ident); ok && (usesOf(li) == obj || defsOf(li) == obj) {
 							assigned = true
 						}
 					}
 				case *ast.UnaryExpr:
 					if y.Op == token.AND {
-						if li, ok := ast.Unparen(y.X).(*ast.Ident); ok && info.Uses[li] == obj {
+						if li, ok := ast.Unparen(y.X).(*ast.Ident); ok && usesOf(li) == obj {
 							assigned = true
 						}
 					}
@@ -1426,4 +1565,245 @@ func lcsLen(a, b string) int {
 		prev = cur
 	}
 	return prev[len(b)]
+}
+
+// pureExpr: identifiers, literals, selections, composite literals (and their addresses) of such: no calls, no effects.
+func pureExpr(e ast.Expr) bool {
+	switch x := e.(type) {
+	case *ast.Ident, *ast.BasicLit:
+		return true
+	case *ast.ParenExpr:
+		return pureExpr(x.X)
+	case *ast.SelectorExpr:
+		return pureExpr(x.X)
+	case *ast.UnaryExpr:
+		if x.Op == token.AND {
+			_, ok := ast.Unparen(x.X).(*ast.CompositeLit)
+			return ok && pureExpr(x.X)
+		}
+		return x.Op != token.ARROW && pureExpr(x.X)
+	case *ast.CompositeLit:
+		for _, el := range x.Elts {
+			if kv, ok := el.(*ast.KeyValueExpr); ok {
+				el = kv.Value
+			}
+			if !pureExpr(el) {
+				return false
+			}
+		}
+		return true
+	}
+	return false
+}
+
+// exprHelperBody: the single result expression of a helper whose body is one `return expr` (no closures): such a
+// helper can be inlined wherever it is called, by substituting the arguments.
+func exprHelperBody(fd *ast.FuncDecl) ast.Expr {
+	if fd.Body == nil || len(fd.Body.List) != 1 || fd.Type.TypeParams != nil {
+		return nil
+	}
+	rs, ok := fd.Body.List[0].(*ast.ReturnStmt)
+	if !ok || len(rs.Results) != 1 {
+		return nil
+	}
+	if fd.Type.Results == nil || fd.Type.Results.NumFields() != 1 {
+		return nil
+	}
+	bad := false
+	ast.Inspect(rs.Results[0], func(nd ast.Node) bool {
+		if _, ok := nd.(*ast.FuncLit); ok {
+			bad = true
+		}
+		return true
+	})
+	if bad {
+		return nil
+	}
+	return rs.Results[0]
+}
+
+// genExprInline: the text that replaces a call of an expression helper: its return expression with the parameters
+// replaced by the (parenthesised) arguments.  Every parameter must be used exactly once, in parameter order, unless
+// its argument is free of calls; basic literals are converted to the parameter type.
+func genExprInline(p *packages.Package, s *inlSite, src func(string) []byte) ([]byte, error) {
+	info := p.TypesInfo
+	h := s.h
+	expr := exprHelperBody(h.decl)
+	if expr == nil {
+		return nil, fmt.Errorf("not an expression helper")
+	}
+	sig, ok := h.obj.Type().(*types.Signature)
+	if !ok || sig.Variadic() || s.call.Ellipsis.IsValid() {
+		return nil, fmt.Errorf("variadic")
+	}
+	hsrc, csrc := src(h.filename), src(s.filename)
+	if hsrc == nil || csrc == nil {
+		return nil, fmt.Errorf("source not available")
+	}
+	off := func(pos token.Pos) int { return p.Fset.Position(pos).Offset }
+	imports := map[string]string{}
+	for _, im := range s.file.Imports {
+		path := strings.Trim(im.Path.Value, "\"")
+		name := ""
+		if im.Name != nil {
+			name = im.Name.Name
+		} else if ip := p.Imports[path]; ip != nil {
+			name = ip.Name
+		}
+		if name != "" && name != "_" && name != "." {
+			imports[path] = name
+		}
+	}
+	qualFail := false
+	qual := func(pk *types.Package) string {
+		if pk == p.Types {
+			return ""
+		}
+		if n, ok := imports[pk.Path()]; ok {
+			return n
+		}
+		qualFail = true
+		return pk.Name()
+	}
+	// parameter objects -> argument text
+	type binding struct {
+		text string
+		pure bool
+		uses int
+		idx  int
+	}
+	binds := map[types.Object]*binding{}
+	n := 0
+	if sig.Recv() != nil {
+		sel, ok := ast.Unparen(s.call.Fun).(*ast.SelectorExpr)
+		if !ok || len(h.decl.Recv.List) != 1 {
+			return nil, fmt.Errorf("method called without a selector")
+		}
+		if selection := info.Selections[sel]; selection != nil && len(selection.Index()) > 1 {
+			return nil, fmt.Errorf("promoted receiver")
+		}
+		_, rp := sig.Recv().Type().(*types.Pointer)
+		_, ep := info.TypeOf(sel.X).(*types.Pointer)
+		if rp != ep {
+			return nil, fmt.Errorf("receiver indirection differs")
+		}
+		if len(h.decl.Recv.List[0].Names) == 1 {
+			if o := info.Defs[h.decl.Recv.List[0].Names[0]]; o != nil {
+				binds[o] = &binding{text: "(" + string(csrc[off(sel.X.Pos()):off(sel.X.End())]) + ")", pure: pureExpr(sel.X), idx: n}
+			}
+		} else if !pureExpr(sel.X) {
+			return nil, fmt.Errorf("unnamed receiver with effects")
+		}
+		n++
+	}
+	ai := 0
+	if h.decl.Type.Params != nil {
+		for _, f := range h.decl.Type.Params.List {
+			names := f.Names
+			if len(names) == 0 {
+				return nil, fmt.Errorf("unnamed parameter")
+			}
+			for _, nm := range names {
+				if ai >= len(s.call.Args) {
+					return nil, fmt.Errorf("argument count")
+				}
+				a := s.call.Args[ai]
+				txt := "(" + string(csrc[off(a.Pos()):off(a.End())]) + ")"
+				if _, isLit := ast.Unparen(a).(*ast.BasicLit); isLit {
+					txt = types.TypeString(sig.Params().At(ai).Type(), qual) + txt
+				}
+				if o := info.Defs[nm]; o != nil {
+					binds[o] = &binding{text: txt, pure: pureExpr(a), idx: n}
+				} else if !pureExpr(a) {
+					return nil, fmt.Errorf("blank parameter with effects")
+				}
+				ai++
+				n++
+			}
+		}
+	}
+	if ai != len(s.call.Args) {
+		return nil, fmt.Errorf("argument count")
+	}
+	// caller locals that would shadow free names of the expression
+	locals := map[string]bool{}
+	ast.Inspect(s.fn, func(nd ast.Node) bool {
+		if id, ok := nd.(*ast.Ident); ok {
+			if o := info.Defs[id]; o != nil && o.Parent() != p.Types.Scope() {
+				locals[id.Name] = true
+			}
+		}
+		return true
+	})
+	type rep struct {
+		a, e int
+		text string
+	}
+	var reps []rep
+	var err error
+	lastIdx := -1
+	ast.Inspect(expr, func(nd ast.Node) bool {
+		id, ok := nd.(*ast.Ident)
+		if !ok {
+			return true
+		}
+		o := info.Uses[id]
+		if o == nil {
+			return true
+		}
+		if b := binds[o]; b != nil {
+			b.uses++
+			if !b.pure {
+				if b.uses > 1 || b.idx < lastIdx {
+					err = fmt.Errorf("argument with calls is used more than once or out of order")
+				}
+				lastIdx = b.idx
+			}
+			reps = append(reps, rep{off(id.Pos()), off(id.End()), b.text})
+			return true
+		}
+		if pn, isPkg := o.(*types.PkgName); isPkg {
+			want, okImp := imports[pn.Imported().Path()]
+			if !okImp {
+				err = fmt.Errorf("package %s is not imported in the calling file", pn.Imported().Path())
+				return true
+			}
+			if locals[want] {
+				err = fmt.Errorf("name %q is shadowed in the calling function", want)
+			}
+			if want != id.Name {
+				reps = append(reps, rep{off(id.Pos()), off(id.End()), want})
+			}
+			return true
+		}
+		if par := o.Parent(); par == p.Types.Scope() || par == types.Universe {
+			if locals[id.Name] {
+				err = fmt.Errorf("name %q is shadowed in the calling function", id.Name)
+			}
+		}
+		return true
+	})
+	for _, b := range binds {
+		if b.uses == 0 && !b.pure {
+			err = fmt.Errorf("an argument with calls is not used by the expression")
+		}
+	}
+	if err != nil {
+		return nil, err
+	}
+	if qualFail {
+		return nil, fmt.Errorf("a parameter type is not importable by name in the calling file")
+	}
+	sort.Slice(reps, func(i, j int) bool { return reps[i].a > reps[j].a })
+	ea, ee := off(expr.Pos()), off(expr.End())
+	t := append([]byte{}, hsrc[ea:ee]...)
+	for _, r := range reps {
+		t = append(append(append([]byte{}, t[:r.a-ea]...), []byte(r.text)...), t[r.e-ea:]...)
+	}
+	// the result has the helper's result type: convert explicitly (untyped constants, interface results)
+	rt := types.TypeString(sig.Results().At(0).Type(), qual)
+	if qualFail {
+		return nil, fmt.Errorf("the result type is not importable by name in the calling file")
+	}
+	return []byte("(" + rt + ")(" + string(t) + ")"), nil
 }
